@@ -152,8 +152,68 @@ async def scenario(sh: Shard, rig, r, label, ncmd):
         devices.append(("eco", facade.eco_mode))
     heater = facade.water_heater
     for step in range(ncmd):
-        choices = ["watercare", "watercare-during-update", "temp", "unit"] + (["device"] * 4 if devices else [])
+        choices = ["watercare", "watercare-during-update", "temp", "unit"] + (["device"] * 4 + ["sync-pair"] if devices else [])
         k = r.choice(choices)
+        if k == "sync-pair":
+            # the facade's plain (non-awaitable) methods hand the work to tasks: two commands of a
+            # scene issued back to back, nobody waits in between - both must go out, once each
+            onoff = [(t_, d_) for t_, d_ in devices if t_ in ("blower", "light")]
+            pumps_ = [(t_, d_) for t_, d_ in devices if t_ == "pump"]
+            picks = []
+            pool = onoff + pumps_
+            r.shuffle(pool)
+            def bytes_of(t_, d_):
+                # every byte a command to this device reads or writes in the spa's block
+                tags = [d_._user_demand["demand"]] if t_ == "pump" else [REF_DEVICES[d_.key][2], "Ud" + d_.key[0] + d_.key[1:].lower(), "Ud" + d_.key]
+                out = set()
+                for tg in tags:
+                    if tg in refs:
+                        out |= set(range(refs[tg].pos, refs[tg].pos + refs[tg].width))
+                return out
+
+            for t_, d_ in pool:
+                if len(picks) == 2:
+                    break
+                if any(d_ is x[1] for x in picks):
+                    continue
+                # (two commands that write the same word of the block are a read-modify-write race of
+                # the protocol itself, not of the facade: left out)
+                if picks and (t_ == "pump" or picks[0][0] == "pump") and bytes_of(t_, d_) & bytes_of(*picks[0]):
+                    continue
+                picks.append((t_, d_))
+            if len(picks) < 2:
+                continue
+            await rig.quiesce(settle=0.3)
+            d0 = len(w.net.dgrams)
+            wants = []
+            for t_, d_ in picks:
+                if t_ == "pump":
+                    cur = d_.mode
+                    ms = [m for m in dict.fromkeys(d_.modes) if m != "" and m != cur]
+                    if not ms:
+                        continue
+                    m = r.choice(ms)
+                    d_.set_mode(m)
+                    wants.append((d_.key, lambda a=spa.accessors[d_._user_demand["demand"]], m=m: a.value == m, f"demand {m}"))
+                else:
+                    on = bool(d_.is_on)
+                    (d_.turn_off if on else d_.turn_on)()
+                    wants.append((d_.key, lambda d=d_, on=on: bool(d.is_on) == (not on), "on" if not on else "off"))
+            await asyncio.sleep(0.05)
+            await rig.quiesce(settle=0.4)
+            sent = [d for d in w.net.dgrams[d0:] if d.dir == "c2s" and d.verb in CMD_VERBS]
+            sh.evaluations += 1
+            sh.count("sync_api_command_pairs")
+            wit = {"scenario": label, "command": ("sync pair", [(k_, what) for k_, _, what in wants]), "sent": [inner(d.data) for d in sent], "snapshot": rig.snapshot_name}
+            if len(sent) != len(wants):
+                sh.violation("C13:command-count:sync-pair", f"{len(wants)} plain facade commands issued back to back ({[(k_, what) for k_, _, what in wants]}), {len(sent)} command datagrams sent", wit)
+            else:
+                bad = [(k_, what) for k_, ok_, what in wants if not ok_()]
+                if bad:
+                    sh.violation("C13:readback:sync-pair", f"after two plain facade commands issued back to back the facade does not read {bad}", wit)
+                else:
+                    sh.count("commands_checked", len(wants))
+            continue
         if k == "watercare-during-update":
             # the command is issued while the facade's own periodic watercare query is in flight
             # (any device change wakes that loop): afterwards the facade must show the new mode
@@ -225,7 +285,12 @@ async def scenario(sh: Shard, rig, r, label, ncmd):
                 t = r.choice([59, 104, 80, 98.6, round(r.uniform(59, 104), 1), (r.randrange(270, 721) + 320) / 10.0])
                 step_ = 0.1
             ref = refs["SetpointG"]
-            await run_cmd(("heater.set_target_temperature", t, units), heater.async_set_target_temperature(t), {"verb": "SET", "ref": ref, "units": units, "check": lambda v, t=t, s=step_: abs(v - t) < s + 1e-9, "readback": lambda: heater.target_temperature, "readback_ok": lambda v, t=t, s=step_: isinstance(v, float) and abs(v - t) < s + 1e-9})
+            # the value as a client may hold it: a number, its text (a form field, a CLI), a Decimal
+            from decimal import Decimal
+
+            targ = r.choice([t, t, str(t), Decimal(str(t))])
+            sh.see("temperature_argument_forms", type(targ).__name__)
+            await run_cmd(("heater.set_target_temperature", repr(targ), units), heater.async_set_target_temperature(targ), {"verb": "SET", "ref": ref, "units": units, "check": lambda v, t=t, s=step_: abs(v - t) < s + 1e-9, "readback": lambda: heater.target_temperature, "readback_ok": lambda v, t=t, s=step_: isinstance(v, float) and abs(v - t) < s + 1e-9})
         elif k == "unit" and "TempUnits" in refs:
             u = r.choice(["C", "F", "°C", "°F", "f"])
             want = "F" if u in ("°F", "f", "F") else "C"
@@ -310,6 +375,7 @@ def main(tier, seed):
     run.need(run.counters.get("watercare_during_update_query_in_flight", 0) > 20, "too few watercare commands issued while the facade's own query was in flight")
     run.need(run.counters.get("commands_issued_behind_a_busy_lock", 0) > 10, "too few commands issued while the protocol lock was held by a retrying request")
     run.need(run.counters.get("long_connection_scenarios", 0) >= 1, "the long-lived connection scenario (command counter wrap) did not run")
+    run.need(run.counters.get("sync_api_command_pairs", 0) > 15 and {"str", "Decimal", "float"} <= run.sets.get("temperature_argument_forms", set()), "no back-to-back plain facade commands / temperature argument forms not all driven")
     for k in ("pump", "light", "eco"):
         run.need(k in run.sets.get("device_kinds", set()), f"no {k} command exercised")
     return run.finish(
